@@ -1,20 +1,23 @@
 #!/bin/bash
-# seed_matrix.sh [tier] [name-filter]: runs each seeded change against the check of the property it breaks,
-# from a snapshot of the committed /verif (so that editing /verif meanwhile does not disturb it).
-# /repo is restored after each run.
+# seed_matrix.sh [tier] [name-filter]: runs each seeded change against the check of the property it breaks.
+# Works on a snapshot of the committed /verif and on a scratch worktree of /repo (VERIF_REPO), so that
+# neither /verif edits nor other runs on /repo interfere; both are removed afterwards.
+# (Equivalent by hand: git -C /repo apply <patch>; ./vcheck <prop> quick; git -C /repo checkout -- .)
 TIER=${1:-quick}; FILTER=${2:-.}
-SNAP=/tmp/vsnap_$$
+SNAP=/tmp/vsnap_$$; RWT=/tmp/rsnap_$$
 git -C /verif worktree add -q --detach $SNAP HEAD || exit 2
-trap 'git -C /repo checkout -- . ; git -C /verif worktree remove --force $SNAP' EXIT
+git -C /repo worktree add -q --detach $RWT HEAD || exit 2
+trap 'git -C /verif worktree remove --force $SNAP; git -C /repo worktree remove --force $RWT' EXIT
 (cd $SNAP && ./vcheck build) || exit 2
+export VERIF_REPO=$RWT
 for d in /verif/seeded/*/; do
   n=$(basename $d); [[ $n =~ $FILTER ]] || continue
   prop=${n%%_*}
   grep -q "\"$prop\"" $SNAP/checks.json || { echo "$n: no check registered for $prop"; continue; }
-  git -C /repo apply $d/patch.diff || { echo "$n: PATCH DOES NOT APPLY"; continue; }
+  git -C $RWT apply $d/patch.diff || { echo "$n: PATCH DOES NOT APPLY"; continue; }
   t0=$(date +%s)
   out=$(cd $SNAP && timeout 3000 ./vcheck $prop $TIER 2>&1); rc=$?
-  git -C /repo checkout -- .
+  git -C $RWT checkout -- .
   t1=$(date +%s)
   v=$(echo "$out" | grep -A1 "^VIOLATION" | head -2 | tr '\n' ' ' | cut -c1-230)
   inc=$(echo "$out" | grep -c "^INCONCLUSIVE")
